@@ -73,7 +73,7 @@ def adjustChunkSizing (size : Int) (isAuto isStaticRange : Bool) (maxThreads : I
     else (maxThreads, isStatic)
   else if size ≤ poolThreads + b2n wait then
     if isAuto then (maxThreads, true)
-    else if ¬ isStaticRange then (size - b2n wait, isStatic)
+    else if ¬ isStaticRange then (min maxThreads (size - b2n wait), isStatic)   -- repaired: min with the caller's budget
     else (maxThreads, isStatic)
   else (maxThreads, isStatic)
 
